@@ -137,6 +137,60 @@ def wrapper_design(rep):
     rep.notes["design_layer_negative_controls"] = neg
 
 
+WRAPPER_JUDGE = """CONSTANTS
+  BucketNames = {"A", "B", "C"}
+  DropHandleOnDelete = TRUE
+  LookupAsksStorage = TRUE
+SPECIFICATION TSpec
+INVARIANT Verdict
+CHECK_DEADLOCK FALSE
+"""
+
+
+def wrapper_binding(rep, tier, seed, rnd, replay=None):
+    """every edge of AwDatastoreDesign's state graph (as TLC enumerates it) and random walks, replayed on the real wrapper"""
+    import copy
+    from .. import wrapper
+    if replay is None:
+        edges, res = wrapper.edges()
+        rep.add_model(res, "AwDatastoreEdges: the complete state graph of the wrapper design, every transition printed as a replayable edge (%d distinct edges)" % len(edges))
+        jobs = [("edge", list(e)) for e in edges] + wrapper.random_walks(rnd, 200 if tier == "quick" else 3000)
+        runs = wrapper.run_jobs(jobs, seed)
+    else:
+        edges, jobs = [], [(replay["mode"], replay["payload"])]
+        runs = wrapper.run_jobs(jobs, seed, backends=[replay["backend"]])
+    traces = [r["trace"] for r in runs]
+    ncan = 0
+    for r in (runs if replay is None else []):
+        if r["mode"] == "edge" and r["payload"][2] == "delete" and r["payload"][3] in r["payload"][0] and ncan < 2:
+            bad = copy.deepcopy(r["trace"])
+            for rec in bad[-3:]:
+                if rec["b"] == r["payload"][3]:
+                    rec["res"] = "handle"       # the deleted bucket still answers a lookup
+            traces.append(bad)
+            ncan += 1
+    acc, rej, stats = tlc.judge("AwDatastoreTrace", WRAPPER_JUDGE, traces, tag="judge_wrapper", chunk=400)
+    rep.add_judge_stats(stats)
+    for ci in range(len(runs), len(runs) + ncan):
+        if ci in acc:
+            raise tlc.TLCFailure("canary (deleted bucket still answers a lookup) accepted by the wrapper judge")
+    if ncan == 0 and replay is None:
+        raise tlc.TLCFailure("no canary could be built for the wrapper judge")
+    rep.notes["wrapper_edges_replayed"] = {"edges": len(edges), "walks": len(jobs) - len(edges), "runs": len(runs), "calls": sum(len(t) for t in traces[:len(runs)]), "canaries_rejected": ncan}
+    for i in sorted(rej):
+        if i >= len(runs):
+            continue
+        r = runs[i]
+        for info in rej[i][:3]:
+            rec = r["trace"][info["l"] - 1]
+            clause = info["clauses"].strip('"')
+            rep.violation(dict(backend=r["backend"], op=rec["op"], clause=clause),
+                          "%s: wrapper call %s(%s) with bucket table %s -> %s, table %s (handle cache %s -> %s): %s" % (
+                              r["backend"], rec["op"], rec["b"], rec["pre"]["stored"], rec["res"], rec["stored"], rec["pre"]["inst"], rec["inst"], clause),
+                          dict(backend=r["backend"], wrapper=True, mode=r["mode"], payload=r["payload"], record=rec, clause=clause))
+    return len(runs)
+
+
 def design_phase(rep, tier, prop):
     """SQL-level design layer of the sqlite backend refines AwStore; the pinned tree's statements are refuted."""
     q = tier == "quick"
@@ -288,6 +342,9 @@ def run(prop, tier, seed, replay=None):
     rnd = random.Random(seed)
     nsim, depth, nrand = SIZES[tier]
     profile = PROFILE[prop]
+    if replay is not None and replay.get("wrapper"):
+        wrapper_binding(rep, tier, seed, rnd, replay)
+        return rep.finish()
     # ---- 1. the reference model satisfies its own properties (bounded, exhaustive)
     if replay is None:
         res = tlc.model_check("MC_AwStore", MC_LIFECYCLE, tag="mc_life")
@@ -298,6 +355,7 @@ def run(prop, tier, seed, replay=None):
             design_phase(rep, tier, prop)
         if prop == "C05":
             wrapper_design(rep)
+            wrapper_binding(rep, tier, seed, rnd)
     # ---- 2. behaviours: TLC simulation of AwStoreGen + random abstract histories
     behaviours = []
     if replay is not None:
